@@ -173,6 +173,20 @@ Section Layer.
   Definition active_evs (o : occupancy) (ns : numst) : list (nat * session) :=
     active_from o ns (n_stations cfg) 0.
 
+  (* specification side: the EVs connected to the network, in station order, each with the index
+     of its station; and "not yet satisfied" = remaining demand > 1e-3 *)
+  Fixpoint connected_from (o : occupancy) (sts : list station_cfg) (i : nat) : list (nat * session) :=
+    match sts with
+    | [] => []
+    | st :: r => match occ_get (st_id st) o with
+                 | Some x => (i, x) :: connected_from o r (S i)
+                 | None => connected_from o r (S i)
+                 end
+    end.
+  Definition connected (o : occupancy) : list (nat * session) := connected_from o (n_stations cfg) 0.
+  Definition unsatisfied (ns : numst) (x : session) : bool :=
+    Qltb (1 # 1000) (s_req x - en_energy (ev_get x ns)).
+
   Definition mk_sinfo (t : Z) (ns : numst) (x : session) : sinfo :=
     mkSinfo (s_station x) (sid x) (s_req x) (en_energy (ev_get x ns)) (s_arrival x) (s_departure x) (s_est x) t
             (SessionInfo_remaining_time (s_arrival x) t (s_departure x))
